@@ -2157,12 +2157,12 @@ fn main() {
         let rep = par_cases(args.threads, args.seed ^ 0xB01C, n, args.budget(12, 200), |_i, s, r| bulk_case(s, deep, r));
         total.max_samples = total.samples.len().max(total.max_samples) + 2;
         total.merge(rep);
-        floors.push(("bulk_programs", 100));
-        floors.push(("bulk_calls_checked", 1_000));
-        floors.push(("bulk_node_lists_with_adjacent_nodes", 100));
+        floors.push(("bulk_programs", 60));
+        floors.push(("bulk_calls_checked", 600));
+        floors.push(("bulk_node_lists_with_adjacent_nodes", 60));
         floors.push(("bulk_node_lists_neighbour_before_highdegree_node", 20));
         floors.push(("bulk_node_lists_highdegree_node_before_neighbour", 20));
-        floors.push(("bulk_edge_lists_sharing_an_endpoint", 100));
+        floors.push(("bulk_edge_lists_sharing_an_endpoint", 60));
         floors.push(("bulk_edge_lists_on_highdegree_node", 20));
     }
 
